@@ -189,6 +189,11 @@ func (c *Ctx) loggingChain(st *State, x *ast.CallExpr, fn *types.Func) Val {
 	case 0:
 		return Tuple{}
 	case 1:
+		if rt := sig.Results().At(0).Type(); isBoolType(rt) {
+			// Event.Enabled() and the like: an arbitrary boolean
+			var facts []Term
+			return c.fresh(rt, "logflag", &facts)
+		}
 		return Opaque{sig.Results().At(0).Type()}
 	}
 	t := Tuple{}
